@@ -362,7 +362,7 @@ CHECKS["C03"] = dict(
 CHECKS["C09"] = dict(
     title="Reusing disk space never damages live entries and never stalls writers",
     level="exploration",
-    rule=("runs = (A) single sequential client writing 3..6 device capacities (capped at 700 / 2400 ops) of inserts (28 B .. 2 pages), "
+    rule=("runs = (C, one run in eight) burst mode: a device filled with never-overwritten one-page entries (a quarter to a sixth of them admitted by the reinsertion filter) receives 2..4 flush batches of 2..4 blocks each, queued behind the flush hold, so that several block writers wait for clean blocks while the reclaimer reinserts; judged on progress, write-log discipline and survival of the admitted entries at the final quiescent point; (A) single sequential client writing 3..6 device capacities (capped at 700 / 2400 ops) of inserts (28 B .. 2 pages), "
           "overwrites, removes, lookups and memory evictions over a live set of at most 1/8 of the device, (B) 3..6 owner tasks on a "
           "4-worker runtime, each the only writer of its keys, same op mix; devices of 2*(flushers+threshold)+{0,1,2,4,8} blocks of "
           "16/32/64 KiB, flushers 1..3, reclaimers 1..2, clean-block threshold 1..2, reinsertion filter none / every 2nd / every 3rd "
